@@ -4,7 +4,9 @@ Every entry is {"id", "family", "net": description, "opts": {...}} ready for vel
 import os
 import random
 
-from . import corpus_ops
+import zlib
+
+from . import corpus_ops, corpus_shapes
 from .netgen import Net
 from .vela_run import ARM_INI
 
@@ -54,39 +56,20 @@ OPS_KINDS = list(corpus_ops.ORDER)
 # reports a VIOLATION on them that has not been triaged by the lead yet (see the comment of each entry).  The builders
 # stay available: f_single(rng, seed, kind) and draw(..., families=[...]) with an explicit name still produce them.
 PENDING_TRIAGE = [
-    # --- compilation aborts with a Python traceback instead of a result or a diagnosis (C13 CompilesOrDiagnoses);
-    #     reproductions: /var/tmp/corpus-ops/repro_<n>.py (copied to harness/repro/ by the lead after triage)
-    "concat_act",            # repro_1: CONCATENATION with a fused activation -> AssertionError in pass_packing.build_pass
+    # The defects the operator-coverage kinds were parked for (concat_act, conv_groups*, nn_ac_x*, rb_ac_x2_h1, lstm*, log_i16,
+    # sqrt_i16, log_u8, softmax_r4, tconv_s1_valid, pad_r3, pad_hw_channel, sslice_newaxis*, memonly:unpack_pack; reproductions
+    # harness/repro/ of the operator-coverage work) are repaired in /repo: every corpus-using check is green with them
+    # (seeds 0 and 1), they are part of the default corpus again.  Still parked:
+    # --- C11 SameInterface on the (now compiling) NPU-placed ARG_MAX; reproduction /var/tmp/corpus-shapes/repro_1.py
     "argmax", "argmax_u8_i64", "argmax_i64", "argmax_c127", "argmax_r2", "argmax_r3", "argmax_tail",
-                             # repro_2: every NPU-placed ARG_MAX -> OverflowError in convert_argmax_to_depthwise_conv_and_max_pool (numpy >= 2)
-    "conv_groups2", "conv_groups4",
-                             # repro_3: grouped CONV_2D -> TypeError int(axis_tens.values) in Operation.get_split_inputs_axis (numpy >= 2)
-    "nn_ac_x2", "nn_ac_x4", "nn_ac_x8",
-                             # repro_4: RESIZE_NEAREST_NEIGHBOR align_corners, depth > 1 -> ValueError reshape in convert_resizenn_ac_to_depthwise_conv
-    "rb_ac_x2_h1",           # repro_5: RESIZE_BILINEAR align_corners with IFM height 1 -> ValueError (NaN) in constraint_resize
-    "lstm", "lstm_batch2", "lstm_clip", "lstm_t1",
-                             # repro_6: batch-major UNIDIRECTIONAL_SEQUENCE_LSTM on Ethos-U55 -> AssertionError (LiveRange) / TypeError (no address)
-    "lstm_peephole",         # repro_10: CPU-placed operator with omitted optional inputs (-1) + --show-cpu-operations / --verbose-all
-                             #           -> AttributeError in stats_writer.format_tens_list (rc 1 after the output was written)
-    "log_i16", "sqrt_i16", "log_u8",
-                             # repro_11: LOG / SQRT (LUT operators of this fork) on int16 -> ValueError "math domain error" in
-                             #           lut.create_lut_int16_op (table built over the negative half too); LOG on uint8 -> AssertionError
-    # --- C04 violation on the emitted stream
-    "softmax_r4",            # repro_13: REDUCE_SUM of the softmax lowering right after the producer of its IFM (depth 21 > producer block
-                             #           depth 16, ethos-u55-32): calc_blockdep sizes the first job with the OFM depth (1) -> BLOCKDEP 1 (C04 BlockDepSafe)
-    # --- C03 (and C10) violations on the emitted stream
-    "tconv_s1_valid",        # repro_7: TRANSPOSE_CONV stride 1 VALID is emitted as an unpadded convolution whose IFM box (OFM + k - 1)
-                             #          exceeds the IFM: rows/columns past the tensor are fetched through tile 1/2 (C03 ReadsIntended, C10 Exact)
-    "pad_r3", "pad_hw_channel",
-                             # repro_8: PAD that pads the first or last dimension together with other dimensions: convert_pad_to_concat
-                             #          keeps only one axis, the rest of the OFM is never written and then read (C03 NoUninitRead)
-    "sslice_newaxis", "sslice_newaxis_off",
-                             # repro_12: STRIDED_SLICE with new_axis_mask: begin/end entries are applied to the wrong input dimensions
-                             #           (C03 ReadsIntended when a later begin is non-zero; C10 PadAfter on the inconsistent read window)
-    "memonly:unpack_pack",   # repro_9: PACK/CONCATENATION result with batch > 1: the Add appended by add_add_op_after_concat covers batch 0
-                             #          only, the consumer reads stale bytes of another tensor (C03 ReadsIntended)
+                             # shapes repro_1: the model OUTPUT tensor of an NPU-placed ARG_MAX gains a trailing dimension of 1
+                             #                 ([1,H,W] -> [1,H,W,1], [N] -> [N,1]) in the compiled model; all other checks are green
+    # --- graph-shape families (corpus_shapes.py); reproductions: /var/tmp/corpus-shapes/repro_<n>.py
+    "io_alias:const_out",    # shapes repro_2: a constant tensor that is also a model output is dropped from the output list of the
+                             #                 compiled model (C11 SameInterface)
 ]
 corpus_ops.PENDING.update(k for k in PENDING_TRIAGE if ":" in k)
+corpus_shapes.PENDING.update(k for k in PENDING_TRIAGE if ":" in k)
 
 
 def f_single(rng, seed, kind=None):
@@ -591,6 +574,12 @@ FAMILIES = {"single": f_single, "chain": f_chain, "branch": f_branch, "mixed": f
 FAMILIES.update(corpus_ops.FAMILIES)
 N_LEGACY_FAMILIES = len(FAMILIES) - len(corpus_ops.FAMILIES)
 
+# graph-shape families (harness/corpus_shapes.py), appended after the operator-coverage families.  They are NOT part of the
+# default family list of draw() (existing draws keep their networks): checks compile them through shape_jobs(), which
+# rotates the styles by the seed, or name them explicitly in draw(..., families=[...]).
+FAMILIES.update(corpus_shapes.FAMILIES)
+SHAPE_FAMILIES = list(corpus_shapes.FAMILIES)
+
 # VERIF_CORPUS_LEGACY=1 restores the corpus as it was before the operator-coverage kinds / families were added
 # (used to measure the cost of the wider corpus and to reproduce older results)
 # The triaged operator-coverage kinds / families are part of the default corpus; everything in PENDING_TRIAGE stays opt-in
@@ -639,9 +628,51 @@ def all_singles(seed, accel=None, tier="quick", rotation=None):
     return out
 
 
+def shape_families():
+    """names of the graph-shape families that have at least one style not pending triage (empty in legacy mode and with
+    VERIF_CORPUS_SHAPES=0, which exists to measure what these families cost)"""
+    if LEGACY_ONLY or os.environ.get("VERIF_CORPUS_SHAPES") == "0":
+        return []
+    return [f for f in SHAPE_FAMILIES if f not in PENDING_TRIAGE and corpus_shapes.live_styles(f)]
+
+
+def shape_jobs(seed, tier="quick", families=None, extra=(), per=1, thorough=40, accel=None):
+    """`per` networks (thorough tier: `thorough`) of every graph-shape family - or of the named ones - plus the same number
+    again for every name in `extra` (the families a check cares most about; a name may be repeated), each with the
+    configuration point its hint asks for.  The styles of a family are taken in rotation, the starting point chosen by the
+    seed: with c networks of a family per run, ceil(len(styles) / c) consecutive seeds cover every style.  Network and
+    configuration of an entry depend only on (seed, family, number of entries of that family, position)."""
+    live = shape_families()
+    names = [f for f in (list(families) if families is not None else live) + list(extra) if f in live]
+    k = per if tier == "quick" else thorough
+    count = {f: names.count(f) * k for f in names}
+    out = []
+    for fam in sorted(count, key=SHAPE_FAMILIES.index):
+        styles = corpus_shapes.live_styles(fam)
+        for j in range(count[fam]):
+            rk = random.Random((seed * 1000003) ^ zlib.crc32(fam.encode()) ^ (j * 7919) ^ 0x5a9e)
+            style = styles[(seed * count[fam] + j) % len(styles)]
+            label, net, hint = FAMILIES[fam](rk, rk.randrange(1 << 20), style)
+            opts = config_point(rk, accel)
+            opts.update(hint)
+            opts = {a: v for a, v in opts.items() if v is not None}
+            out.append({"id": "g%s%d" % (fam, j), "family": label, "net": net, "opts": opts, "hint": hint})
+    return out
+
+
+def shape_sample(seed, tier="quick", k=4, thorough=10):
+    """for checks whose cost per network is high: one network of k graph-shape families, the families taken in rotation by
+    the seed (ceil(#families / k) consecutive seeds cover all); thorough tier: `thorough` networks of every family"""
+    live = shape_families()
+    if tier != "quick" or not live:
+        return shape_jobs(seed, tier, thorough=thorough)
+    return shape_jobs(seed, tier, families=[live[(seed * k + i) % len(live)] for i in range(min(k, len(live)))])
+
+
 def draw(n, seed, families=None, accel=None, dedicated_bias=0.0, weights=None):
     rng = random.Random(seed)
-    fams = families or [f for i, f in enumerate(FAMILIES) if f not in PENDING_TRIAGE and not (LEGACY_ONLY and i >= N_LEGACY_FAMILIES)]
+    fams = families or [f for i, f in enumerate(FAMILIES) if f not in PENDING_TRIAGE and f not in corpus_shapes.FAMILIES
+                        and not (LEGACY_ONLY and i >= N_LEGACY_FAMILIES)]
     out = []
     for i in range(n):
         fam = rng.choices(fams, weights=weights)[0] if weights else fams[i % len(fams)]
